@@ -30,10 +30,17 @@ def classify(record) -> str:
     return (record.get("message") or "").split("::")[0].strip()[:60] or "c19"
 
 
-def _run(n: int, edges: List[List[bool]], internal: List[bool], spaces: bool) -> None:
-    """edges[j][i] (i < j): command j names command i as a parent"""
+NAME_SWAPS = [None, (0, 1), (0, 2), (1, 2), (0, 3), (1, 3), (2, 3)]
+
+
+def _run(n: int, edges: List[List[bool]], internal: List[bool], spaces: bool, swap=None) -> None:
+    """edges[j][i] (i < j): command j names command i as a parent.  `swap`: two roles exchange their names - the module
+    keeps the parents of a command in a set of strings, so which parent is processed first depends on the names"""
     from ak.cli_tools import ArgParser
     names = [f"c{k}" for k in range(n)]
+    if swap is not None and max(swap) < n:
+        a, b = swap
+        names[a], names[b] = names[b], names[a]
     cmds = []
     for j in range(n):
         ps = [names[i] for i in range(j) if edges[j][i]]
@@ -115,7 +122,7 @@ def _run(n: int, edges: List[List[bool]], internal: List[bool], spaces: bool) ->
 
 
 def h_graph(e10: bool, e20: bool, e21: bool, e30: bool, e31: bool, e32: bool, e40: bool, e41: bool, e42: bool, e43: bool,
-            i0: bool, i1: bool, i2: bool, i3: bool, i4: bool, spaces: bool, shard=None) -> None:
+            i0: bool, i1: bool, i2: bool, i3: bool, i4: bool, spaces: bool, swap_i: int, shard=None) -> None:
     n = shard["n"]
     flat = {(1, 0): e10, (2, 0): e20, (2, 1): e21, (3, 0): e30, (3, 1): e31, (3, 2): e32, (4, 0): e40, (4, 1): e41, (4, 2): e42, (4, 3): e43}
     internal = [i0, i1, i2, i3, i4][:n]
@@ -135,8 +142,11 @@ def h_graph(e10: bool, e20: bool, e21: bool, e30: bool, e31: bool, e32: bool, e4
     edges = [[realize(flat[(j, i)]) for i in range(j)] for j in range(n)]
     spaces = realize(spaces)
     reject_unless(spaces == shard.get("spaces", False))
+    reject_unless(swap_i == 0)
     with concrete():
-        _run(n, edges, internal, spaces)
+        for swap in NAME_SWAPS:
+            if swap is None or max(swap) < n:
+                _run(n, edges, internal, spaces, swap)
 
 
 def jobs(tier: str) -> List[Job]:
